@@ -483,10 +483,13 @@ def cover_cases(tier, seed, kinds):
         rest = [p for p in plan if p not in must]
         plan = must + rnd.sample(rest, max(0, 420 - len(must)))
     plan = [p + (None,) for p in plan] + multi
+    if tier == 'thorough':
+        # every case with acceptance off and on, and three rounds (other bundle, other payload length)
+        plan = [p[:6] + (acc,) for _round in range(3) for p in plan for acc in (False, True)]
     lens = [0, 1, 5, 15, 16, 17, 1000]
     for (producer, kind, scope_name, cls, keymode, target_num, force_accept) in plan:
         k += 1
-        plen = lens[k % len(lens)] if kind in CONF_KINDS or cls == 'none' else 5
+        plen = lens[k % len(lens)] if (kind in CONF_KINDS or cls == 'none' or tier == 'thorough') else 5
         try:
             if producer == 'repo':
                 ttypes = (1,) if target_num == 1 else (193,)
